@@ -353,8 +353,18 @@ func (s *Store) LinkSystem() *ipld.LinkSystem {
 			}
 		}
 		if k, bad := s.Unavailable[c.KeyString()]; bad {
-			if k == 3 {
+			// the SHAPE of the error is a function of the kind: what the library has to do with a load error never depends on it
+			switch k {
+			case 3:
 				return nil, notFoundFault{FaultErr{k}} // the shape block stores give "I do not have it" (NotFound() bool)
+			case 4: // a remote store that timed out on this block only
+				return nil, fmt.Errorf("blockstore: get: %w", wrappedFault{FaultErr{k}, context.DeadlineExceeded})
+			case 5:
+				return nil, wrappedFault{FaultErr{k}, context.Canceled}
+			case 6: // a connection cut while fetching this block
+				return nil, fmt.Errorf("blockstore: get: %w", wrappedFault{FaultErr{k}, io.EOF})
+			case 7:
+				return nil, fmt.Errorf("blockstore: get: %w", wrappedFault{FaultErr{k}, io.ErrUnexpectedEOF})
 			}
 			return nil, FaultErr{k}
 		}
